@@ -72,9 +72,30 @@ func classify(c Case) (bool, []string) {
 	return len(w) >= 2 && has0 && has1, labels
 }
 
-func check(c Case) *vk.Failure {
+var scratch vk.Scratch
+
+func check(c Case) (f *vk.Failure) {
 	orig := c.words()
-	words := vk.Words(orig).Clone() // what the code under test sees
+	words := vk.Words(orig).Clone() // what the code under test sees: a private copy ...
+	reused := scratch.Reuse(vk.SumU64(orig))
+	if reused {
+		words = scratch.U64(orig) // ... or, every other case, a reused buffer with guarded spare capacity
+	}
+	defer func() {
+		if f == nil && reused {
+			if msg := scratch.Check(); msg != "" {
+				f = vk.Failf("argument-spare-capacity-written", "%s", msg)
+			}
+		}
+		if f == nil {
+			for i := range orig {
+				if words[i] != orig[i] {
+					f = vk.Failf("argument-modified", "bitmap word %d was modified by the rank functions", i)
+					break
+				}
+			}
+		}
+	}()
 	n := len(words)
 	nbits := 64 * n
 
